@@ -1097,3 +1097,18 @@ def _limits_in_specs(repo, ob, failure):
 
 GENERATORS.insert(0, ("C17.limit.propagated", _limits_in_specs))
 GENERATORS.insert(0, ("C17.limit.final", _limits_in_specs))
+
+
+def _text_content_depth(repo, ob, failure):
+    """the depth limit measures nesting depth only: a shape written with text content is one level, like its text= form"""
+    cases = [('<svg><config depth-limit="2"/><rect wh="10">hello</rect></svg>', '<svg><config depth-limit="2"/><rect wh="10" text="hello"/></svg>'),
+             ('<svg><config depth-limit="3"/><g><circle r="4">hi</circle></g></svg>', '<svg><config depth-limit="3"/><g><circle r="4" text="hi"/></g></svg>')]
+    for doc, twin in cases:
+        a, b = run_svgdx(repo, doc), run_svgdx(repo, twin)
+        if b["rc"] == 0 and a["rc"] != 0:
+            return {"input": doc, "observed": "rejected: %s" % a["err"].strip()[-80:], "expected": "accepted, as the text= spelling of the same element at the same nesting depth is"}
+    return None
+
+
+GENERATORS.insert(0, ("C17.depth.text_content", _text_content_depth))
+GENERATORS.insert(0, ("C17.depth.container", _text_content_depth))
